@@ -47,6 +47,10 @@ func vNext(tag string) uint64 {
 		vRun.tagErr = "input vector exhausted at " + tag
 		return 0
 	}
+	// readings of the machine's wall clock exist only on the symbolic side
+	for vRun.vec.Inputs[vRun.pos].Tag == "wallclock" && tag != "wallclock" && vRun.pos+1 < len(vRun.vec.Inputs) {
+		vRun.pos++
+	}
 	in := vRun.vec.Inputs[vRun.pos]
 	vRun.pos++
 	if in.Tag != tag && vRun.tagErr == "" {
